@@ -634,6 +634,13 @@ int gb_check(gbuf_t* g, long* where) {
   VP_POISON(g->p + g->n, g->total - pre - g->n);
   return bad;
 }
+// buffers that live in a mapping of their own (placement modes 3, 4, 5, 7): the data pages can be made read-only for the duration
+// of a call in which the buffer is a const input - a write to it, even one that is undone before the call returns, faults.
+// Returns 1 when the protection was applied.
+int gb_readonly(gbuf_t* g, int on) {
+  if (!g->map_base || !g->total) return 0;
+  return mprotect(g->base, g->total, on ? PROT_READ : (PROT_READ | PROT_WRITE)) == 0;
+}
 void gb_free(gbuf_t* g) {
   if (!g->base) return;
   VP_UNPOISON(g->base, g->total);
